@@ -329,8 +329,8 @@ pub fn e2_padspace(ctx: &Ctx, name: &str, st: &mut Local, f: Sink) {
         for _ in 0..nine {
             pre.push(Tok::Lit(0x90));
         }
-        // (a) stored block after the prefix, all pad values, then final fixed block
-        for pad in 0..32u8 {
+        // (a) stored block after the prefix, all pad values (up to 7 padding bits), then final fixed block
+        for pad in 0..128u8 {
             for tail in 0..2 {
                 let i = idx;
                 idx += 1;
@@ -396,7 +396,7 @@ pub fn e2_padspace(ctx: &Ctx, name: &str, st: &mut Local, f: Sink) {
         }
     }
     let e = st.eng(name);
-    e.bound = "8 bit offsets x (32 stored-block padding values x {final, non-final} + 128 final padding values)".into();
+    e.bound = "8 bit offsets x (128 stored-block padding values x {final, non-final} + 128 final padding values)".into();
     e.exhaustive = true;
 }
 
